@@ -116,67 +116,8 @@ theorem C34_within_window (s : St) (o1 o2 : List Nat) (id msg off len : Nat) (e 
 theorem C34_takeFrom_fifo (s : St) (id : Nat) (o : Out) (s' : St) (h : takeFrom s id = (o, s'))
     (hp : ∀ w, o ≠ .panic w) (hn : o ≠ .nothing) :
     o.stream = some id ∧ pending s id = o.atoms ++ pending s' id ∧
-    ∀ j, j ≠ id → pending s' j = pending s j := by
-  cases hq : s.sq.lookup id with
-  | none => rw [takeFrom_none s id hq] at h; simp only [Prod.mk.injEq] at h; exact absurd h.1.symm (hp _)
-  | some q =>
-    match q, hq with
-    | [], hq => rw [takeFrom_nil s id hq] at h; simp only [Prod.mk.injEq] at h; exact absurd h.1.symm (hp _)
-    | .hdr e0 :: rest, hq =>
-      rw [takeFrom_hdr s id e0 rest hq] at h
-      simp only [Prod.mk.injEq] at h
-      obtain ⟨ho, hs⟩ := h
-      subst ho hs
-      refine ⟨rfl, ?_, fun j hj => pending_shiftQ_other s id j rest hj⟩
-      rw [pending_shiftQ_self]
-      unfold pending; rw [hq]; simp [qAtoms, Wr.atoms, Out.atoms]
-    | .data msg off len e :: rest, hq =>
-      have hpend : pending s id = Wr.atoms (.data msg off len e) ++ qAtoms rest := by
-        unfold pending; rw [hq]; simp [qAtoms]
-      by_cases hl0 : len = 0
-      · subst hl0
-        rw [takeFrom_zero s id msg off e rest hq] at h
-        simp only [Prod.mk.injEq] at h
-        obtain ⟨ho, hs⟩ := h
-        subst ho hs
-        refine ⟨rfl, ?_, fun j hj => pending_shiftQ_other s id j rest hj⟩
-        rw [pending_shiftQ_self, hpend]; simp [Wr.atoms, Out.atoms]
-      · cases hw : s.streams.lookup id with
-        | none =>
-          rw [takeFrom_nostream s id msg off len e rest hq hw (by omega)] at h
-          simp only [Prod.mk.injEq] at h; exact absurd h.1.symm (hp _)
-        | some w =>
-          rw [takeFrom_data s id msg off len e rest w hq hw (by omega)] at h
-          simp only [] at h
-          split at h
-          · simp only [Prod.mk.injEq] at h; exact absurd h.1.symm hn
-          · split at h
-            · split at h
-              · simp only [Prod.mk.injEq] at h; exact absurd h.1.symm (hp _)
-              · rename_i hgt hneg
-                simp only [Prod.mk.injEq] at h
-                obtain ⟨ho, hs⟩ := h
-                subst ho hs
-                refine ⟨rfl, ?_, ?_⟩
-                · rw [hpend]
-                  unfold pending
-                  simp only [lookup_setKey, beq_self_eq_true, if_true, Option.getD_some]
-                  simp only [qAtoms, List.flatMap_cons, Wr.atoms, Out.atoms]
-                  rw [bytesOf_split msg off (allowedOf s.mfs (availOf s.conn w)).toNat len
-                    (by omega)]
-                  simp [List.append_assoc]
-                · intro j hj
-                  have hjb : (j == id) = false := by simp [hj]
-                  unfold pending
-                  simp [lookup_setKey, hjb]
-            · simp only [Prod.mk.injEq] at h
-              obtain ⟨ho, hs⟩ := h
-              subst ho hs
-              refine ⟨rfl, ?_, ?_⟩
-              · rw [pending_shiftQ_self, hpend]; simp [Wr.atoms, Out.atoms]
-              · intro j hj
-                rw [pending_shiftQ_other _ id j rest hj]
-                unfold pending debit; rfl
+    ∀ j, j ≠ id → pending s' j = pending s j :=
+  takeFrom_fifo s id o s' h hp hn
 
 /-- **C34 (no internal panic in takeFrom)**: for a queue that exists, is non-empty and belongs to a
     live stream whose `available()` is not negative, `takeFrom` never reaches `flow.take`'s
@@ -239,6 +180,36 @@ theorem C34_end_closes (s : St) (o1 o2 : List Nat) (id : Nat) (h : (take s o1 o2
   simp only [h]
   simp [forget, lookup_delKey]
 
+/-- **C34 (per-stream FIFO over whole histories)**: for every sequence of operations (opening streams,
+    queueing DATA/HEADERS writes on any stream, control frames, takes with ANY map-iteration orders,
+    WINDOW_UPDATEs, SETTINGS changes, closing OTHER streams) during which stream `id` stays open:
+    what was pending on `id` before, followed by everything queued on it since, equals everything
+    written on it followed by what is still pending — as sequences of octets, HEADERS markers and
+    END_STREAM markers.  So the DATA chunks of a stream concatenate to the queued writes in order,
+    nothing is duplicated, dropped or reordered, and an END_STREAM marker can only come out after every
+    octet queued before it. -/
+theorem C34_fifo_trace (id : Nat) (s : St) (msg : Nat) (ops : List Op)
+    (h : aliveAfterEach id s msg ops) :
+    pending s id ++ (trace id s msg ops).2.2 =
+      (trace id s msg ops).2.1 ++ pending (trace id s msg ops).1 id :=
+  trace_keeps id ops s msg h
+
+/-- from the moment the stream is opened (nothing pending yet): written ++ still pending = queued -/
+theorem C34_fifo_from_open (id : Nat) (s : St) (msg : Nat) (ops : List Op)
+    (h0 : s.sq.lookup id = none) (h : aliveAfterEach id s msg ops) :
+    (trace id s msg ops).2.1 ++ pending (trace id s msg ops).1 id = (trace id s msg ops).2.2 := by
+  have := C34_fifo_trace id s msg ops h
+  simpa [pending, h0, qAtoms] using this.symm
+
+/-- ... and the frame that ends the history (possibly the one carrying END_STREAM, after which
+    `C34_end_closes` / `C34_nothing_after_close` apply) is the next piece of that same sequence. -/
+theorem C34_fifo_last_frame (id : Nat) (s : St) (msg : Nat) (ops : List Op) (o1 o2 : List Nat)
+    (h : aliveAfterEach id s msg ops) :
+    pending s id ++ (trace id s msg ops).2.2 =
+      (trace id s msg ops).2.1 ++ sentBy id (some (take (trace id s msg ops).1 o1 o2).1) ++
+        pending (take (trace id s msg ops).1 o1 o2).2 id := by
+  rw [C34_fifo_trace id s msg ops h, List.append_assoc, ← take_keeps]
+
 /-! ### non-vacuity and concrete behaviour (also replayed through the harness: corpus/C34) -/
 
 /-- window 10 left on the stream, 100 bytes queued with END_STREAM: a 10-byte chunk without END_STREAM -/
@@ -250,6 +221,20 @@ example :
 example :
     (take { init with conn := 5, streams := [(1, 10)], sq := [(1, [.data 0 0 100 true])] } [1] [1]).1
       = .data 1 0 0 5 false false := by decide
+
+/-- a two-stream history, from the moment stream 1 is open (stream window 5): 8 octets + END_STREAM are
+    queued on stream 1; stream 3's HEADERS go first, then a 5-octet chunk without END_STREAM; 3 octets
+    and the END_STREAM marker stay queued -/
+def demoStart : St := (trace 1 init 0 [.setIws 5, .openS 1]).1
+def demoOps : List Op :=
+  [.openS 3, .addData 1 8 true, .addHdr 3 false, .takeOp [3, 1] [3, 1], .takeOp [1] [1]]
+
+example : aliveAfterEach 1 demoStart 0 demoOps := by
+  simp only [demoOps, aliveAfterEach]; decide
+
+example : (trace 1 demoStart 0 demoOps).2.1 = bytesOf 0 0 5 ∧
+    pending (trace 1 demoStart 0 demoOps).1 1 = bytesOf 0 5 3 ++ [Atom.fin] ∧
+    (trace 1 demoStart 0 demoOps).2.2 = bytesOf 0 0 8 ++ [Atom.fin] := by decide
 
 /-- a negative stream window (after a SETTINGS shrink) blocks the stream and a later
     WINDOW_UPDATE is honoured (before fix C34-flow-add it was answered with FLOW_CONTROL_ERROR) -/
